@@ -279,7 +279,7 @@ func (rc *recorder) driveSnap(ci int, c *Case, path int) error {
 				return err
 			}
 		default: // RestoreAt(a snapshot naming an unknown node)
-			bogus := &ysgo.Snapshot{CurrentNode: "NoSuchNodeAtAll", Variables: map[string]variable.Value{"x": *variable.NewNumber(99)},
+			bogus := &ysgo.Snapshot{CurrentNode: []string{"NoSuchNodeAtAll", "Aaa", "Zzzz", "~last", ""}[rnd.Intn(5)], Variables: map[string]variable.Value{"x": *variable.NewNumber(99)},
 				VisitedNodes: map[string]int{c.Nodes[0].Title: 42}}
 			var rerr error
 			panicked := !guarded(func() { rerr = h.dr.RestoreAt(bogus) })
